@@ -449,6 +449,35 @@ def _part_c(ctx):
                     break
             if "X" in xsh.env or xsh.env.get("Y") != "gy":
                 ctx.violation("percmd-prefix-leaks-into-session", "the prefix does not outlive the command", {"line": line}, {"X": xsh.env.get("X"), "Y": xsh.env.get("Y")}, {"X": None, "Y": "gy"})
+    # list-valued prefixes (`$LIBPATH=@([d1, d2]) cmd`, a glob with several matches): the child receives what
+    # the same value gives in a scope of the session itself (differential oracle: env.swap + detype)
+    with open(os.path.join(bindir, "pany"), "w") as f:
+        f.write('#!/bin/sh\neval "v=\\${$2-<unset>}"\nprintf "%s" "$v" > "$1"\n')
+    os.chmod(os.path.join(bindir, "pany"), 0o755)
+    for name in ("XVLIBPATH", "XVL"):
+        for val in (["d1"], ["d1", "d2"], ["d1", "d2", "d 3"], ["", "d2"]):
+            out = os.path.join(d, "ol")
+            if os.path.exists(out):
+                os.unlink(out)
+            # (`@(...)` always yields a list: a one-element list stands for its element)
+            with xsh.env.swap({name: list(val) if len(val) > 1 else val[0]}):
+                want = xsh.env.detype().get(name, "<unset>")
+            line = f"${name}=@({val!r}) pany {out} {name}"
+            try:
+                xsh.execer.exec(line + "\n", glbs=xsh.ctx)
+                err = None
+            except Exception as e:  # noqa: BLE001
+                err = f"{type(e).__name__}: {e}"[:200]
+            n_cases += 1
+            got = open(out).read() if os.path.exists(out) else None
+            if err or got != want:
+                ctx.violation(
+                    f"percmd-prefix-list-value:{'path-like' if name.endswith('PATH') else 'plain'}:{len(val)}-elements",
+                    "a per-command prefix hands the child the value given at launch",
+                    {"line": line},
+                    err or got,
+                    want,
+                )
     ctx.sample({"pipeline": "penv o0 | $X='1' penv o1 | $Y='2' penv o2", "stage2_child_sees": "X=1;Y=gy"})
     return n_cases
 
